@@ -11,6 +11,7 @@ def run(chk, tier):
     gio.check_error_codes(chk)
     gio.check_who_touches_disk(chk)
     gio.check_determinism(chk)
+    gio.check_initialised(chk)
     caught = ghaz.check_main(chk)
     ghaz.exception_escape(chk, caught)
     return chk.finish(
@@ -20,7 +21,7 @@ def run(chk, tier):
                      "create_directories tests its error_code; every std::error_code handed to a call is tested, with a failing arm that "
                      "raises, before it is handed to the next call (G-IO.ec); read_file returns data only under a successful read test. "
                      "Who-may-touch-disk: no file API call outside fs_provider (resolved callees). main returns 0 only "
-                     "past compile(), every handler returns non-zero and std::exception is covered. Determinism: no clock / "
+                     "past compile(), every handler returns non-zero and std::exception is covered. Determinism: no default-initialised parse / context struct keeps a scalar member that is never assigned (G-INIT), no ordering / printing / hashing of pointer values, no clock / "
                      "random / pid / environment API and no iteration over a pointer-keyed container anywhere in the TU. "
                      "Behaviour under each individual failing syscall and byte identity of two real runs are not decided; "
                      "iteration order of unordered_map<string,...> is assumed to be a function of the insertion sequence "
